@@ -104,7 +104,7 @@ Next == /\ now < MaxT
              /\ forcedD' = IF e.role # role \/ CbIdx(e, "active", FALSE) # {} THEN FALSE ELSE (forcedD \/ (e.op = "force_failover" /\ e.acc))
              /\ nProm' = IF nProm < 3 /\ role = "standby" /\ e.role = "active" THEN nProm + 1 ELSE nProm
              /\ nComp' = IF nComp < 3 THEN nComp + NCompleted(e) ELSE nComp
-             /\ flagged' = (flagged \/ cl # {})
+             /\ flagged' = (flagged \/ cl # {} \/ FlipFlop(e))   \* after a flip-flop step the number of promotions is unknown
 
 Spec == Init /\ [][Next]_vars
 
